@@ -131,10 +131,10 @@ def state_report(kind: int, dv: int, sv: int, mv: int, val: str, flag: bool) -> 
 def description_report(kind: int, dv: int, sv: int, mv: int, pdv: int, val: str) -> str:
     """
     One descriptor transaction (0 update m0 + its state, 1 create m9 + state, 2 delete m1, 3 delete subtree vmd0,
-    4 create in the second MDS): the DescriptionModificationReport carries the committed version group, one part per changed
+    4 create in the second MDS, 5 delete child m1 and then its parent ch0 explicitly, child first): the DescriptionModificationReport carries the committed version group, one part per changed
     descriptor with the right modification type, parent, source MDS, committed DescriptorVersion, and the related states;
     the state reports sent along carry the same version.
-    pre: 0 <= kind <= 4
+    pre: 0 <= kind <= 5
     pre: dv >= 0
     pre: sv >= 0
     pre: mv >= 0
@@ -173,11 +173,17 @@ def description_report(kind: int, dv: int, sv: int, mv: int, pdv: int, val: str)
                 tr.remove_descriptor('m1')
                 exp['m1'] = (dmt.DELETE, 'ch0', 'mds0', None, 0)
                 exp['ch0'] = (dmt.UPDATE, 'vmd0', 'mds0', pdv + 1, 1)
-            else:
+            elif kind == 3:
                 tr.remove_descriptor('vmd0')
                 for h, p in (('m0', 'ch0'), ('m1', 'ch0'), ('ch0', 'vmd0'), ('vmd0', 'mds0')):
                     exp[h] = (dmt.DELETE, p, 'mds0', None, 0)
                 exp['mds0'] = (dmt.UPDATE, None, 'mds0', 1, 1)
+            else:
+                tr.remove_descriptor('m1')
+                tr.remove_descriptor('ch0')
+                for h, p in (('m0', 'ch0'), ('m1', 'ch0'), ('ch0', 'vmd0')):
+                    exp[h] = (dmt.DELETE, p, 'mds0', None, 0)
+                exp['vmd0'] = (dmt.UPDATE, 'mds0', 'mds0', 1, 1)     # a deleted descriptor must not be reported as updated
         orc.check(len(cap.sent) >= 1, 'no-report-sent')
         payload, action, vg = cap.sent[0]
         orc.check(action.endswith('DescriptionModificationReport'), 'first-report-is-not-the-description-report')
